@@ -53,7 +53,10 @@ def gen_cases(tier, seed):
             srcs = []
         elif cls == "missing-source":
             srcs.insert(pos, r.choice(["does-not-exist", "does-not-exist", "missing]", "no}such{"]))
-            if r.random() < 0.35:
+            if r.random() < 0.5:
+                srcs[pos] = r.choice(["missing]", "missing]", "gone].txt", "does-not-exist"])      # (a stray `]` does not make a name a pattern)
+                opts += ["--glob"]
+            elif r.random() < 0.35:
                 # named literally while --glob is on: still a missing source, not a pattern (a pattern with wildcards that matches
                 # nothing is not claimed, see ASSUMPTIONS)
                 opts += ["--glob"]
